@@ -177,13 +177,29 @@ def merge_states(cx, parent, states, base_len, base_pc, live=None):
     m.stops = list(parent.stops)
     m.pathconds = list(parent.pathconds)
     # assumptions: disjunction of the arms' additions
-    disj = []
-    for s in states:
-        extra = s.assumptions[base_len:]
-        disj.append(z3.And(extra) if extra else z3.BoolVal(True))
+    # assumptions: what an arm added holds under that arm's path condition (the arms are mutually
+    # exclusive by construction); definitions of fresh symbols hold unconditionally. Stated fact
+    # by fact so that the quantifier-free ones remain usable on their own.
     m.assumptions = list(parent.assumptions)
     m.assumed_ids = set(parent.assumed_ids)
-    m.assume(z3.Or(disj))
+    m.defs = set(parent.defs) if hasattr(parent, 'defs') else set()
+    kts = list(getattr(parent, 'keyterms', []))
+    for s0 in states:
+        for x in getattr(s0, 'keyterms', []):
+            if all(not x.eq(y) for y in kts):
+                kts.append(x)
+    m.keyterms = kts
+    m.keyfacts = list(getattr(parent, 'keyfacts', []))
+    m.assume(z3.Or(conds))
+    for c, s in zip(conds, states):
+        sdefs = getattr(s, 'defs', set())
+        for f in s.assumptions[base_len:]:
+            if f.get_id() in sdefs:
+                m.assume(f, definitional=True)
+            elif z3.is_true(c):
+                m.assume(f)
+            else:
+                m.assume(z3.Implies(c, f))
     if not all(f.eq(fts[0]) for f in fts):
         m.assume(z3.And([m.frontier >= f for f in fts]))
     return m
